@@ -29,6 +29,10 @@ impl<'a> Paseto<'a, V1, Local> {
         footer: (impl Into<Option<Footer<'a>>> + Copy),
     ) -> Result<String, PasetoError> {
         let decoded_payload = Self::parse_raw_token(token, footer, &V1::default(), &Local::default())?;
+        //a payload shorter than nonce + tag cannot be a token
+        if decoded_payload.len() < 32 + 48 {
+            return Err(PasetoError::IncorrectSize);
+        }
         let nonce = Key::from(&decoded_payload[..32]);
         let nonce = PasetoNonce::<V1, Local>::from(&nonce);
 
